@@ -242,7 +242,9 @@ func c04SweepProperty(rt *rapid.T) {
 			if os.Getenv("VERIF_INPROC") != "" {
 				verdict = c04SweepHandler(append([]string{encodeAnnots(fields), strconv.Itoa(lo), progress}, c.args...), c.valid)
 			} else {
-				verdict = isolated("c04sweep", append([]string{encodeAnnots(fields), strconv.Itoa(lo), progress}, c.args...), c.valid)
+				// one call works through many items (it hands back after 10 s of wall time, but on a saturated machine it
+				// may burn a lot of CPU before it gets there): "does not return" is judged at 10 minutes, not at one
+				verdict = isolatedWithin(10*time.Minute, "c04sweep", append([]string{encodeAnnots(fields), strconv.Itoa(lo), progress}, c.args...), c.valid)
 			}
 			switch {
 			case strings.HasPrefix(verdict, "FAIL:"):
